@@ -74,7 +74,9 @@ EntryOf(e) == [v |-> e.v, w |-> e.w, a |-> e.a, by |-> e.by]
 FilesMatch(files, dir) ==
   /\ Len(files) = Cardinality(dir)
   /\ \A j \in DOMAIN files : \E f \in dir : f.a = files[j].fa /\ BagEq([i \in DOMAIN files[j].entries |-> EntryOf(files[j].entries[i])], f.es)
-FilesSane(files) == \A j \in DOMAIN files : files[j].wellformed /\ \A i \in DOMAIN files[j].entries : files[j].entries[i].roots /\ files[j].entries[i].fork
+\* GetDepositFilePath: deposit-data-<amount>eth.json, the 32 ETH file keeps the old name
+FileName(a) == IF a = 32 THEN "deposit-data.json" ELSE "deposit-data-" \o ToString(a) \o "eth.json"
+FilesSane(files) == \A j \in DOMAIN files : files[j].wellformed /\ files[j].name = FileName(files[j].fa) /\ \A i \in DOMAIN files[j].entries : files[j].entries[i].roots /\ files[j].entries[i].fork
 MayPanic(r) == AllowPanic /\ r.kind = "sign" /\ \E i \in DOMAIN r.vals : r.vals[i] = -1
 TDone == /\ IsEvent("Done") /\ Ev.c \in Cmds
          /\ LET r == cmd[Ev.c] IN
